@@ -258,6 +258,8 @@ def run(tier):
             ill_trees = behaviours_from(mc, "ILL")
             rng.shuffle(ill_trees)
             ill_trees = ill_trees[:T["ill"]]
+        mc.out = ""
+        mc.printed = []
         log(f"[mc] {names} cost<={cost}: {mc.distinct} states, {c['structures']} structures "
             f"({c['ill_scoped']} ill-scoped) in {mc.wall:.0f}s")
 
@@ -269,6 +271,7 @@ def run(tier):
         g = tlc("ScopeGen", cfg, workers=8, timeout=3000, xmx="16g", tag=f"{PID}gen{len(gen_info)}")
         tlc_must_pass(g, f"ScopeGen directed enumeration ({names}, cost <= {cost})")
         trees = [b["t"] for b in behaviours_from(g)]
+        g.out = ""
         if not trees:
             tool_failure("ScopeGen produced no structures")
         free = census_by_space.get((names, cost))
@@ -295,21 +298,33 @@ def run(tier):
     n_wellscoped = len(lines)
     for t in ill_trees:
         lines.append({"id": len(lines) + 1, "t": t["t"], "run": False})
-    th = time.time()
-    recs = harness_run(d, "trees", lines, T["builds"])
-    log(f"[harness] {len(recs)} structures observed in {time.time()-th:.0f}s")
-    occs = sum(len(r["occ"]) for r in recs)
-    rens = sum(len(r["ren"]) for r in recs)
-    accepted = sum(1 for r in recs if r["accepted"])
-    samples.append({"structure": recs[min(200, len(recs) - 1)]["t"],
-                    "answers": [{k: o[k] for k in ("n", "loc", "def", "refs")} for o in recs[min(200, len(recs) - 1)]["occ"]][:4]})
-    tj = time.time()
+    # observed and judged in batches (the records of a thorough run do not fit in memory at once)
     desc = describe_structure(d, T["builds"])
-    parts = [recs[k:k + T["chunk"]] for k in range(0, len(recs), T["chunk"])]
-    with ThreadPoolExecutor(max_workers=3) as ex:
-        fails += sum(ex.map(lambda kp: judge(d, kp[1], "ScopeTrace.cfg", f"s{kp[0]}", known, stats, desc, workers=5),
-                            enumerate(parts)))
-    log(f"[judge] structures judged in {time.time()-tj:.0f}s")
+    n_recs = occs = rens = accepted = 0
+    t_h = t_j = 0.0
+    BATCH = 42000
+    for b0 in range(0, len(lines), BATCH):
+        th = time.time()
+        recs = harness_run(d, "trees", lines[b0:b0 + BATCH], T["builds"])
+        t_h += time.time() - th
+        n_recs += len(recs)
+        occs += sum(len(r["occ"]) for r in recs)
+        rens += sum(len(r["ren"]) for r in recs)
+        accepted += sum(1 for r in recs if r["accepted"])
+        if b0 == 0:
+            k = min(200, len(recs) - 1)
+            samples.append({"structure": recs[k]["t"],
+                            "answers": [{f: o[f] for f in ("n", "loc", "def", "refs")} for o in recs[k]["occ"]][:4]})
+        tj = time.time()
+        parts = [recs[k:k + T["chunk"]] for k in range(0, len(recs), T["chunk"])]
+        with ThreadPoolExecutor(max_workers=3) as ex:
+            fails += sum(ex.map(lambda kp: judge(d, kp[1], "ScopeTrace.cfg", f"s{kp[0]}", known, stats, desc, workers=5),
+                                enumerate(parts)))
+        t_j += time.time() - tj
+        del recs, parts
+        if fails >= MAX_REPORTS:
+            break
+    log(f"[harness] {n_recs} structures observed in {t_h:.0f}s; judged by ScopeTrace.tla in {t_j:.0f}s")
     if known == "nestedor" and stats["known_seen"] == 0:
         log("[known-finding] the witness reproduces but no enumerated structure shows the finding")
 
@@ -382,12 +397,12 @@ def run(tier):
     log(f"[real] generated programs: {gen_info_real}")
     coverage = {
         "states": mc_states, "transitions": mc_trans,
-        "traces_validated_against_impl": len(recs) + len(real) + gen_info_real.get("modules", 0),
+        "traces_validated_against_impl": n_recs + len(real) + gen_info_real.get("modules", 0),
         "samples": samples,
         "free_spaces_model_checked": mc_info,
         "well_scoped_spaces_replayed": gen_info,
         "structures_replayed": n_wellscoped,
-        "ill_scoped_structures_replayed": len(recs) - n_wellscoped,
+        "ill_scoped_structures_replayed": len(lines) - n_wellscoped,
         "structures_accepted_by_the_checker": accepted,
         "identifier_occurrences_queried": occs,
         "queries_per_occurrence": "definition x2, references x2, rename x1",
